@@ -36,6 +36,7 @@ func Not(a M) M              { return M{"k": "not", "a": a} }
 func And(a, b M) M           { return M{"k": "and", "a": a, "b": b} }
 func Or(a, b M) M            { return M{"k": "or", "a": a, "b": b} }
 func NilC(a, b M) M          { return M{"k": "nilc", "a": a, "b": b} }
+func Paren(a M) M            { return M{"k": "paren", "a": a} }
 func Pr(id int, a M) M       { return M{"k": "pr", "id": id, "a": a} }
 
 // ---- statements
